@@ -240,7 +240,8 @@ PROPS["C01"] = {
     "theorems": ["C01_subframe_lossless", "C01_frame_lossless", "C01_zigzag_inverse", "C01_fixed_predictors", "C01_midside",
                  "C01_decoder_reads_subframe", "C01_subframe_ops_are_these_bits", "C01_bytes_carry_the_bits", "C01_subframe_bytes_decode_to_input",
                  "C01_encoder_subframes_verify", "C01_subframe_end_to_end", "C01_decoder_reads_frame", "C01_block_code_reads",
-                 "C01_rate_code_reads", "C01_word_sink_bytes_carry_the_bits", "C01_frame_end_to_end", "C01_stream_end_to_end"],
+                 "C01_rate_code_reads", "C01_word_sink_bytes_carry_the_bits", "C01_frame_end_to_end", "C01_stream_end_to_end",
+                 "C01_fixed_size_frame_end_to_end", "C01_stream_end_to_end_lpc", "C01_stream_end_to_end_no_lpc"],
     "streams": "ENC+DLV", "rule": "ENC+DLV",
     "oracle": lambda pid, res, driver: enc_oracle(pid, res, driver) + enc_oracle(pid, res, driver, "DLV"),
     "assumptions": ["PARTIAL: proved are the meaning of the emitted components (predictors, residual coding, stereo) and that the independent "
@@ -498,7 +499,7 @@ CFG_RULE = ("CFG: random configurations with 0-2 fields pushed to/over their lim
 
 PROPS["C07"] = {
     "coq": "theories/Props/C07.v",
-    "theorems": ["C07_verify_exact", "C07_verified_no_panic", "C07_verified_config_encodes", "C07_verified_config_lossless"],
+    "theorems": ["C07_verify_exact", "C07_verified_no_panic", "C07_verified_config_encodes", "C07_verified_config_lossless", "C07_verified_config_lossless_lpc"],
     "streams": "CFG+ENC", "rule": "CFG+ENC",
     "oracle": cfg_oracle,
     "assumptions": ["PARTIAL for panics inside the floating-point estimators (NaN/inf asserts in lpc.rs): not expressible in the model, monitored on every ENC case",
@@ -567,7 +568,7 @@ PARSE_RULE = ("PARSE: small emitted streams (1-3 channels, 8/16/24 bits, blocks 
 PROPS["C15"] = {
     "coq": "theories/Props/C15.v",
     "theorems": ["C15_number_parse", "C15_residual", "C15_residual_ops_bits", "C15_subframe", "C15_subframe_ops_bits",
-                 "C15_bytes_carry_the_bits", "C15_ideal_bits", "C15_frame", "C15_stream", "C15_encoded_stream"],
+                 "C15_bytes_carry_the_bits", "C15_ideal_bits", "C15_frame", "C15_stream", "C15_encoded_stream", "C15_encoded_stream_lpc"],
     "streams": [PARSE_STREAM], "rule": PARSE_RULE,
     "oracle": parse_oracle,
     "assumptions": ["PARTIAL: only the number coding is proved through the parser model; the whole-tree inverse is decided per run",
@@ -664,7 +665,7 @@ PAR_RULE = ("PAR: multi-threaded encoding of 0..9 blocks (+ optional short tail)
 PROPS["C05"] = {
     "coq": "theories/Props/C05.v",
     "theorems": ["C05_all_schedules_w1_b1", "C05_all_schedules_w2_b1", "C05_all_schedules_w1_b0", "C05_par_refines_seq",
-                 "C05_invariant_init", "C05_invariant_step"],
+                 "C05_invariant_init", "C05_invariant_step", "C05_par_result_is_encode_blocks"],
     "streams": "PAR+DLV", "rule": "PAR+DLV",
     "oracle": par_oracle,
     "assumptions": ["the general theorem is about the LTS of Model/Par.v (all W, all block counts, all fault plans, all schedules); atomicity is that "
